@@ -23,7 +23,7 @@ static spif_obj_t S_(const char *t) { return SPIF_OBJ(spif_str_new_from_ptr((spi
 static const char *stext(spif_obj_t o) { return (o && SPIF_STR(o)->s) ? (const char *) SPIF_STR(o)->s : (o ? "<E0>" : "<NULL>"); }
 
 /* ------------------------------------------------------------------ str / ustr */
-static const char *STRB[] = { "new()", "from_ptr(\"\")", "from_ptr(\"a\")", "from_ptr(\"ab\")", "from_ptr(\"B \")", "from_buff(\"a\",4)", "from_ptr(\"abcdef\")+splice(1,4,NULL)", "from_num(12)", "from_ptr(\"b\")", "from_ptr(\"abc\")" };
+static const char *STRB[] = { "new()", "from_ptr(\"\")", "from_ptr(\"a\")", "from_ptr(\"ab\")", "from_ptr(\"B \")", "from_buff(\"a\",4)", "from_ptr(\"abcdef\")+splice(1,4,NULL)", "from_num(12)", "from_ptr(\"b\")", "from_ptr(\"abc\")", "from_ptr(70000 x 'L')" };
 static spif_obj_t str_build(int i)
 {
     switch (i) {
@@ -33,6 +33,7 @@ static spif_obj_t str_build(int i)
     case 6: { spif_str_t s = spif_str_new_from_ptr((spif_charptr_t) "abcdef"); spif_str_splice(s, 1, 4, (spif_str_t) NULL); return SPIF_OBJ(s); }
     case 7: return SPIF_OBJ(spif_str_new_from_num(12));
     case 8: return S_("b");
+    case 10: { char *b = malloc(70001); memset(b, 'L', 70000); b[70000] = 0; spif_obj_t o = S_(b); free(b); return o; }
     default: return S_("abc");
     }
 }
@@ -63,6 +64,7 @@ static spif_obj_t ustr_build(int i)
     case 6: { spif_ustr_t s = spif_ustr_new_from_ptr((spif_charptr_t) "abcdef"); spif_ustr_splice(s, 1, 4, (spif_ustr_t) NULL); return SPIF_OBJ(s); }
     case 7: return SPIF_OBJ(spif_ustr_new_from_num(12));
     case 8: return U_("b");
+    case 10: { char *b = malloc(70001); memset(b, 'L', 70000); b[70000] = 0; spif_obj_t o = U_(b); free(b); return o; }
     default: return U_("abc");
     }
 }
@@ -81,7 +83,7 @@ static void ustr_mut(spif_obj_t o, int j)
 static void ustr_obs(spif_obj_t o, char *b, size_t n) { spif_ustr_t s = (spif_ustr_t) o; char e[200]; if (s->s) mc_esc(s->s, (size_t) s->len, e, sizeof e); snprintf(b, n, "%s|len=%ld", s->s ? e : "", (long) s->len); }
 
 /* ------------------------------------------------------------------ mbuff */
-static const char *MBB[] = { "new()", "from_ptr(\"\",0)", "from_ptr(\"a\",1)", "from_ptr(\"a\\0b\",3)", "from_buff(\"a\",1,4)", "from_ptr(\"abcdef\",6)+splice(1,4,NULL)", "from_ptr(\"ab\",2)", "from_ptr(\"abc\",3)", "from_ptr(\"b\",1)" };
+static const char *MBB[] = { "new()", "from_ptr(\"\",0)", "from_ptr(\"a\",1)", "from_ptr(\"a\\0b\",3)", "from_buff(\"a\",1,4)", "from_ptr(\"abcdef\",6)+splice(1,4,NULL)", "from_ptr(\"ab\",2)", "from_ptr(\"abc\",3)", "from_ptr(\"b\",1)", "from_ptr(70000 x 0x4c)" };
 static spif_obj_t mb_build(int i)
 {
     switch (i) {
@@ -93,6 +95,7 @@ static spif_obj_t mb_build(int i)
     case 5: { spif_mbuff_t m = spif_mbuff_new_from_ptr((spif_byteptr_t) "abcdef", 6); spif_mbuff_splice(m, 1, 4, (spif_mbuff_t) NULL); return SPIF_OBJ(m); }
     case 6: return SPIF_OBJ(spif_mbuff_new_from_ptr((spif_byteptr_t) "ab", 2));
     case 7: return SPIF_OBJ(spif_mbuff_new_from_ptr((spif_byteptr_t) "abc", 3));
+    case 9: { unsigned char *b = malloc(70000); memset(b, 'L', 70000); spif_obj_t o = SPIF_OBJ(spif_mbuff_new_from_ptr(b, 70000)); free(b); return o; }
     default: return SPIF_OBJ(spif_mbuff_new_from_ptr((spif_byteptr_t) "b", 1));
     }
 }
@@ -267,7 +270,7 @@ static spif_obj_t new_container(int kind)
     case 9: return SPIF_MAP_NEW(array); case 10: return SPIF_MAP_NEW(linked_list); default: return SPIF_MAP_NEW(dlinked_list);
     }
 }
-static const char *LSB[] = { "[]", "[a]", "[a,b]", "[b,a,a]", "[a,-,b] (insert_at beyond the end)", "[-,a]", "[a,b,c]" };
+static const char *LSB[] = { "[]", "[a]", "[a,b]", "[b,a,a]", "[a,-,b] (insert_at beyond the end)", "[-,a]", "[a,b,c]", "[300 elements e000..e299]" };
 static spif_obj_t ls_build(int i)
 {
     spif_list_t l = new_container(KIND_LIST);
@@ -278,6 +281,7 @@ static spif_obj_t ls_build(int i)
     case 4: SPIF_LIST_APPEND(l, S_("a")); SPIF_LIST_INSERT_AT(l, S_("b"), 2); break;
     case 5: SPIF_LIST_INSERT_AT(l, S_("a"), 1); break;
     case 6: SPIF_LIST_APPEND(l, S_("a")); SPIF_LIST_APPEND(l, S_("b")); SPIF_LIST_APPEND(l, S_("c")); break;
+    case 7: for (int k = 0; k < 300; k++) { char t[8]; snprintf(t, sizeof t, "e%03d", k); SPIF_LIST_APPEND(l, S_(t)); } break;
     }
     return l;
 }
@@ -307,7 +311,7 @@ static void ls_obs(spif_obj_t l, char *b, size_t n)
     k += (size_t) snprintf(b, n, "n=%d:", c);
     for (int i = 0; i < c && k + 40 < n; i++) { spif_obj_t e = SPIF_LIST_GET(l, i); k += (size_t) snprintf(b + k, n - k, "[%s]", e ? stext(e) : "-"); }
 }
-static const char *VCB[] = { "{}", "{b}", "{b,d}", "{b,b,d}", "{d,f}" };
+static const char *VCB[] = { "{}", "{b}", "{b,d}", "{b,b,d}", "{d,f}", "{300 elements e000..e299}" };
 static spif_obj_t vc_build(int i)
 {
     spif_vector_t v = new_container(KIND_VECTOR);
@@ -316,6 +320,7 @@ static spif_obj_t vc_build(int i)
     case 2: SPIF_VECTOR_INSERT(v, S_("d")); SPIF_VECTOR_INSERT(v, S_("b")); break;
     case 3: SPIF_VECTOR_INSERT(v, S_("b")); SPIF_VECTOR_INSERT(v, S_("d")); SPIF_VECTOR_INSERT(v, S_("b")); break;
     case 4: SPIF_VECTOR_INSERT(v, S_("f")); SPIF_VECTOR_INSERT(v, S_("d")); break;
+    case 5: for (int k = 0; k < 300; k++) { char t[8]; snprintf(t, sizeof t, "e%03d", (k * 7) % 300); SPIF_VECTOR_INSERT(v, S_(t)); } break;
     }
     return v;
 }
@@ -344,7 +349,7 @@ static void vc_obs(spif_obj_t v, char *b, size_t n)
     for (int i = 0; a && i < c && k + 40 < n; i++) k += (size_t) snprintf(b + k, n - k, "[%s]", stext(a[i]));
     if (a) FREE(a);
 }
-static const char *MPB[] = { "{}", "{a=1}", "{a=1,b=2}", "{a=2,b=1,c=1} (a overwritten)", "{b=1}" };
+static const char *MPB[] = { "{}", "{a=1}", "{a=1,b=2}", "{a=2,b=1,c=1} (a overwritten)", "{b=1}", "{300 keys e000..e299 and a=1}" };
 static void mset(spif_map_t m, const char *k, const char *v) { spif_obj_t K = S_(k), V = S_(v); SPIF_MAP_SET(m, K, V); SPIF_OBJ_DEL(K); SPIF_OBJ_DEL(V); }
 static spif_obj_t mp_build(int i)
 {
@@ -354,6 +359,7 @@ static spif_obj_t mp_build(int i)
     case 2: mset(m, "b", "2"); mset(m, "a", "1"); break;
     case 3: mset(m, "a", "1"); mset(m, "c", "1"); mset(m, "b", "1"); mset(m, "a", "2"); break;
     case 4: mset(m, "b", "1"); break;
+    case 5: for (int k = 0; k < 300; k++) { char t[8]; snprintf(t, sizeof t, "e%03d", (k * 7) % 300); mset(m, t, "v"); } mset(m, "a", "1"); break;
     }
     return m;
 }
@@ -410,6 +416,8 @@ static cls_t CLASSES[] = {
 #define NCLASSES NEL(CLASSES)
 static const char *FAMILY[3] = { "array", "linked_list", "dlinked_list" };
 static const char *FAMILY_CLASSNAME[3] = { "!spif_array_t!", "!spif_linked_list_t!", "!spif_dlinked_list_t!" };
+/* the last builder state of these classes is a large one (70000 bytes / 300 elements): size thresholds for dup, comp and ownership */
+static int cls_is_big(const cls_t *c, int i) { return i == c->n_build - 1 && (c->kind || !strcmp(c->name, "str") || !strcmp(c->name, "ustr") || !strcmp(c->name, "mbuff")); }
 /* full class label, e.g. "dlinked_list.map" */
 static const char *cls_label(const cls_t *c) { static char b[64]; if (c->kind) snprintf(b, sizeof b, "%s.%s", FAMILY[g_family], c->name); else snprintf(b, sizeof b, "%s", c->name); return b; }
 static const char *cls_classname(const cls_t *c) { return c->kind ? FAMILY_CLASSNAME[g_family] : c->classname; }
